@@ -59,12 +59,13 @@ CLAIMED = {
     "C13": dict(cat="model_checking", ref="DESIGN.md 3.4, 6 (C13)",
                 text="TLC checks isolation (an operation addressed to one storage changes no other) and DDL statuses as action properties of the YkMap state machine; "
                      "every create/delete/find/list and every data call by name (existing and unknown names: empty, binary, long, prefix-sharing) on the real code is "
-                     "judged by TLC against the directory of ordered maps (TraceMap ON={C13}). The 'exactly one winner' clause under concurrency is judged by the "
-                     "concurrent checks when built.", note=SEQ_NOTE, tech="TLA+ model checking (TLC) of YkMap + TLC trace validation of real API executions (TraceMap)"),
+                     "judged by TLC against the directory of ordered maps (TraceMap ON={C13}). Concurrent create / delete / find of the same names (2-3 threads under the deterministic scheduler, every single "
+                     "preemption + random + PCT) must linearize as unique-insert / remove on the directory: exactly one winner.", note=SEQ_NOTE, tech="TLA+ model checking (TLC) of YkMap + TLC trace validation of real API executions (TraceMap)"),
     "C15": dict(cat="model_checking", ref="DESIGN.md 3.4, 6 (C15)",
                 text="Every value returned by get / scan / iscan on the real code is compared by TLC with what was put: byte fingerprint, length, address aligned "
                      "to the requested alignment (1..4096), created_value_ptr = the stored copy (same address, same bytes), inline words by value; lengths 0..3 MiB+5. "
-                     "Atomic overwrite vs concurrent reader is judged by the concurrent checks when built.",
+                     "Atomic overwrite: concurrent put/get histories under the scheduler with values of different lengths carrying their id in every word must linearize "
+                     "(a torn or mixed value is unplaceable).",
                 note=SEQ_NOTE + "; bytes compared through 64-bit FNV-1a + length", tech="TLC trace validation of real API executions (TraceMap ON={C15})"),
     "C17": dict(cat="model_checking", ref="DESIGN.md 3.3, 6 (C17)",
                 text="TLC exhaustively checks the concurrent lock/unlock/flag/stable protocol (YkVersion) and TLC judges a replay of "
